@@ -15,6 +15,7 @@ class Canon(object):
         self.g = model.cfg(fname)
         self.defs = model.defs_of(fname)
         self._cache = {}
+        self.index_eval = None     # optional hook: (index expr, node id) -> int or None
         # parameter aliases inferred from the call sites of internal functions:
         # param decl id -> (canonical string in terms of another parameter, that parameter's decl id)
         self.palias = getattr(model, 'palias', {}).get(fname, {})
@@ -85,6 +86,8 @@ class Canon(object):
             s, v, f, addr = b
             i = strip(x.kids[1])
             c = const_eval(i)
+            if c is None and self.index_eval is not None:
+                c = self.index_eval(i, nid)
             if c is not None:
                 return ('%s[%d]' % (s, c), v, f, False)
             ic = self.canon_val(nid, i)
